@@ -60,7 +60,7 @@ CHECKS = {
           'and through the change clause (panel laminate, interface position / skin and flange laminate, density).'),
     design_ref='DESIGN.md section 4 (C20)',
     note=('histories of length <= 3 over the listed methods (bounded in length, symbolic in all data); kernels/field functions assumed pure (thread-count independence of the compiled field wrappers is proved in C11); '
-          'plotting is not covered; 22 known findings (ConeCyl keeps derived data and cached matrices of the first evaluation), 6 fixed defects'),
+          'plotting is not covered; 26 known findings (ConeCyl keeps derived data and cached matrices of the first evaluation), 6 fixed defects'),
     technique='effect contracts + symbolic execution; structural comparison of result terms'),
  'C12': dict(
     category='proof',
